@@ -308,6 +308,38 @@ def config_job(args):
     return n, bad
 
 
+def rotated_job(items):
+    """rotated rectangles / ellipses (azimuth not a multiple of 90 degrees) with receivers on and off the major axis: delivery
+    end to end exactly when the reference geometry puts the receiver inside (border band skipped)"""
+    from mc.ref import geo_area as GA
+    bad, n = [], 0
+    for (lat, lon, shape, angle, bearing) in items:
+        for kind in ("gbc", "gac"):
+            alat, alon = int(round(lat * 1e7)), int(round(lon * 1e7))
+            blat, blon = GA.destination(alat, alon, bearing, 200.0)
+            where = GA.classify(shape, alat, alon, 300, 40, angle, blat, blon)
+            if where == "band":
+                continue
+            n += 1
+            rec = dict(what="rotated", transport=kind, item=repr((shape, angle, bearing)), hemisphere=("S" if lat < 0 else "N") + ("W" if lon < 0 else "E"))
+            try:
+                net, a, b = two_station(lat, lon, blat / 1e7 - lat, blon / 1e7 - lon)
+                net.call(b.gn.gn_data_request_beacon)
+                net.quiesce()
+                apv = a.gn.ego_position_vector
+                area = S.Area(latitude=apv.latitude, longitude=apv.longitude, a=300, b=40, angle=angle)
+                net.call(a.btp.btp_data_request, btp_request(kind, 2001, "B", 0x0102, b"rot", area=area, shape=shape))
+                net.quiesce()
+            except Exception as e:  # noqa: BLE001
+                bad.append(dict(kind="exception", event="config", exc=f"{type(e).__name__}: {str(e)[:60]}", **rec))
+                continue
+            g = summarize(b.btp_indications)
+            exp = 1 if where == "inside" else 0
+            if len(g) != exp:
+                bad.append(dict(kind="delivery_count" if exp else "delivered_outside_area", got=len(g), expected=exp, station="B", **rec))
+    return n, bad
+
+
 def secured_job(args):
     """security ON with a common trust root: both stations hold tickets under the same AA and know each other's ticket"""
     from mc.worlds import secured as SEC
@@ -405,6 +437,10 @@ def run(ctx):
     places = [(la, lo, dla, dlo, sh, al) for la in lats for lo in lons for (dla, dlo) in offs for sh, al in ((0, "SIMPLE"), (1, "CBF"), (2, "SIMPLE"))]
     for i in range(0, len(places), 40):
         jobs.append((config_job, ("place", places[i:i + 40])))
+    rot = [(la, lo, sh, ang, brg) for (la, lo) in ((41.0, 2.0), (-33.8688, 151.2093), (40.7128, -74.006), (-22.9068, -43.1729))
+           for sh in (1, 2) for ang in (30, 60, 120, 150, 200, 330) for brg in (ang, (360 - ang) % 360, (ang + 90) % 360, (ang + 180) % 360)]
+    for i in range(0, len(rot), 24):
+        jobs.append((rotated_job, rot[i:i + 24]))
     jobs.append((secured_job, [(41.0, 2.0)]))
     jobs.append((secured_job, [(-33.8688, 151.2093)]))
     jobs.append((secured_job, [(40.7128, -74.006)]))
